@@ -170,6 +170,8 @@ def run(ctx, rep):
             raise AnalysisBroken('C05.R4: no sleep found in %s' % wname)
     rep.rule('C05.R8', 'the first iteration of each wait loop reaches the sleep (so an expired deadline / notified note is applied and confirmed at once)')
     check_first_iteration_sleeps(mod, rep, 'C05.R8')
+    rep.rule('C05.R9', 'the remove_count snapshot that validates a timeout is re-taken before every enqueue that leads to a timed sleep')
+    check_snapshot_fresh(mod, rep, 'C05.R9')
     # ---- R5: registration on the cancel note (lockset engine)
     from .. import objmodel
     from .C08 import holds
@@ -213,6 +215,65 @@ def run(ctx, rep):
     return rep.finish(
         explanation='R1/R3 from the abstract interpreter (typestate at exit; the condition result is a symbolic boolean whose value set at each exit is compared with the returned code); R2/R4 are guard (dominance) and argument rules on sem_wait.c and the two wait loops.',
         trusted_base=['clang 14 IR', 'nsa/symex.py', 'dominators'])
+
+def check_snapshot_fresh(mod, rep, rid):
+    """A waiter that times out may declare the timeout (and unlink itself) only if nobody dequeued it meanwhile; it finds out by comparing
+    w->remove_count with a snapshot.  Every dequeue by another thread increments the counter, so the snapshot is good for ONE stay on the queue:
+    it must be re-taken after the previous timed sleep and before the enqueue that leads to the next one.  With a stale snapshot the comparison
+    fails for ever after the first wake-up, the timeout is never confirmed and the call spins although its deadline has passed.
+    CFG rule, per function of the two wait families that contains the timed sleep T: for every enqueue E from which T is reachable without
+    another enqueue, every path T -> E passes a load of waiter.remove_count that is a snapshot (a sleep can follow it before it is used)."""
+    from ..cfg import paths_avoiding
+    SLEEP = ('nsync_sem_wait_with_cancel_',)
+    ENQ = ('nsync_dll_make_last_in_list_', 'nsync_dll_make_first_in_list_')
+    n = 0
+    for wname in ('nsync_cv_wait_with_deadline_generic', 'nsync_mu_wait_with_deadline'):
+        wf = mod.func(wname)
+        if wf is None or wf.decl:
+            raise AnalysisBroken('%s: %s not found' % (rid, wname))
+        for gname in sorted(util.bind_params(mod, wf, [])):
+            g = mod.func(gname)
+            sleeps = [i for i in g.real_insts() if i.op == 'call' and i.callee in SLEEP]
+            enqs = [i for i in g.real_insts() if i.op == 'call' and i.callee in ENQ]
+            if not sleeps or not enqs:
+                continue
+            um = util.users_map(g)
+            def users_closure(i):
+                out, work = set(), [i.id]
+                while work:
+                    x = work.pop()
+                    for u in um.get(x, []):
+                        if id(u) in out:
+                            continue
+                        out.add(id(u))
+                        if u.op in ('phi', 'zext', 'sext', 'trunc', 'bitcast'):
+                            work.append(u.id)
+                return out
+            loads = [i for i in g.real_insts() if i.op == 'load' and isinstance(i.ops[0], str)
+                     and util.last_field(util.addr_class(mod, g, i.ops[0])) == 'waiter.remove_count']
+            snaps = []
+            for l in loads:
+                us = users_closure(l)
+                if us and paths_avoiding(g, l, lambda i: i.op == 'call' and i.callee in SLEEP, lambda i: id(i) in us) is not None:
+                    snaps.append(l)
+            sn = set(id(x) for x in snaps)
+            for T in sleeps:
+                for E in enqs:
+                    others = set(id(x) for x in enqs if x is not E)
+                    if paths_avoiding(g, E, lambda i: i is T, lambda i: id(i) in others) is None:
+                        continue
+                    if paths_avoiding(g, T, lambda i: i is E, lambda i: False) is None:
+                        continue    # the thread never enqueues again after this sleep
+                    stale = paths_avoiding(g, T, lambda i: i is E, lambda i: id(i) in sn)
+                    n += 1
+                    rep.instance(rid, '%s: enqueue at %s leads to the timed sleep at %s again; snapshot of remove_count re-taken in between (%d snapshot load(s)): %s'
+                                 % (gname, E.where(), T.where(), len(snaps), stale is None)); rep.oblig(rid, stale is None)
+                    if stale is not None:
+                        rep.violate(Violation(rid, E.where(),
+                            '%s can go from its timed sleep back to the enqueue and sleep again without re-reading w->remove_count: the snapshot predates a dequeue by a waker, the "nobody dequeued me" comparison fails on every later timeout, and the call never confirms the timeout - it spins past its deadline' % gname,
+                            site='%s/stale-remove-count' % gname))
+    if n == 0:
+        raise AnalysisBroken('%s: no wait loop that re-enqueues after a timed sleep found (nsync_mu_wait_with_deadline has one)' % rid)
 
 def check_first_iteration_sleeps(mod, rep, rid):
     """In each wait loop of the two wait families (the loop that polls the thread's own waiting flag and contains the cancellable sleep) the
